@@ -268,6 +268,10 @@ class Body:
             if "fn" in c:
                 return ("fnconst", c["fn"]["def"], (c["fn"].get("resolved") or {}).get("def"))
             v = int(c["val"]) if c.get("val") is not None else None
+            if v is None and c.get("promoted") is not None and self.raw.get("promoted"):
+                pb = self.promoted(c["promoted"])
+                if pb is not None:
+                    return pb.ret_origin()
             return ("const", v, c.get("text"), c.get("ty"))
         p = op_place(op) if isinstance(op, dict) and ("copy" in op or "move" in op) else op
         if p is None or "l" not in p:
@@ -343,6 +347,27 @@ class Body:
         if k == "repeat":
             return ("repeat", self.origin(rv["x"], depth + 1, seen), rv["len"])
         return ("rv", k, rv.get("text", "")[:80])
+
+    def promoted(self, idx):
+        ps = self.raw.get("promoted") or []
+        if idx >= len(ps):
+            return None
+        key = "%s#const%d" % (self.name, idx)
+        if key not in self.mir._wrapped:
+            self.mir._wrapped[key] = Body(key, ps[idx], self.mir)
+        return self.mir._wrapped[key]
+
+    def ret_origin(self):
+        """origin of the value a (promoted constant) body returns"""
+        ds = [d for d in self.defs().get(0, []) if d[0] == "stmt" and not d[3]["place"]["p"]]
+        if len(ds) != 1:
+            return ("phi", 0)
+        rv = ds[0][3]["rv"]
+        if rv["k"] == "ref":
+            return ("ref", self.origin(rv["place"]))
+        if rv["k"] == "use":
+            return self.origin(rv["x"])
+        return ("rv", rv["k"])
 
     # ------------------------------------------------------------ path/event summaries
     def event_paths(self, classify, start=0, limit=4000, stop_at_back_edge=True):
